@@ -439,7 +439,8 @@ func run(c Case) engine.Result {
 // maxExec caps the executions of one scenario (a capped scenario is reported as not exhaustive, never as held)
 func maxExec() int64 {
 	if os.Getenv("VERIF_TIER") == "thorough" || curTier == "thorough" {
-		return 400000
+		// (was 400000: a worker then grows to 6-7 GB and sixteen of them met the kernel's out-of-memory killer)
+		return 60000
 	}
 	return 6000
 }
@@ -669,7 +670,7 @@ func init() {
 		Gen:  gen18,
 		// a worker starts no further scenario after this long (the ones left are reported as a cap, exhaustive=false):
 		// on a loaded machine the thorough tier would otherwise run for hours
-		SoftDeadline: map[string]time.Duration{"quick": 15 * time.Minute, "thorough": 50 * time.Minute},
+		SoftDeadline: map[string]time.Duration{"quick": 15 * time.Minute, "thorough": 25 * time.Minute},
 		Key: func(c Case) string {
 			return c.Kind + "\x00" + strings.Join(c.Requests, ",") + "\x00" + strings.Join(c.Plugins, ",") + fmt.Sprint(c.Bound, c.Schedule)
 		},
